@@ -347,3 +347,27 @@ void bad_exp_sign__dig__g1_mul_x(g1_t c, const bn_t b) {
 	}
 	g1_mul_gen(c, b);
 }
+
+/* the relation is stored first and the curve equation conjoined in a second statement */
+int ok_e__g1_is_valid(const g1_t a) {
+	bn_t n;
+	g1_t u;
+	int r = 0;
+
+	if (g1_is_infty(a)) {
+		return 0;
+	}
+	bn_null(n);
+	g1_null(u);
+	bn_new(n);
+	g1_new(u);
+	pc_get_ord(n);
+	bn_sub_dig(n, n, 1);
+	g1_mul_any(u, a, n);
+	g1_neg(u, u);
+	r = (g1_cmp(u, a) == RLC_EQ);
+	r = r && g1_on_curve(a);
+	bn_free(n);
+	g1_free(u);
+	return r;
+}
